@@ -282,11 +282,19 @@ def edit_check(ctx, prop, which):
     nt = 8 if ctx.tier == "quick" else 40
     cfgs = [("Edit_quick.cfg", nt, 2)] if ctx.tier == "quick" else [("Edit_thorough.cfg", nt, 2), ("Edit_double.cfg", 6, 1)]
     witness = None
-    extra = [("soups", 0, 0)] + ([("family", 0, 0)] if prop == "C18" else [])
+    extra = [("soups", 0, 0)] + ([("family", 0, 0), ("sizes", 0, 0)] if prop == "C18" else [])
     for cfg, ntrees, ms in cfgs + extra:
         if cfg == "soups":
             gp = os.path.join(ctx.work, "soups.ndjson")
             ctx.vh_json(["soups", ctx.seed, 6000 if ctx.tier == "quick" else 100000, gp])
+        elif cfg == "sizes":
+            # documents by number of diagnostics around powers of two and round numbers, with unused declarations (SizeFam.tla)
+            ds = gen_lines(ctx, "SizeFam", "SizeFam_%s.cfg" % ctx.tier, "documents by size: thresholds x offsets x unused declarations x kinds", workers=1)
+            dp = os.path.join(ctx.work, "size_desc.ndjson")
+            open(dp, "w").write("\n".join(ds) + "\n")
+            gp = os.path.join(ctx.work, "size_docs.ndjson")
+            ctx.vh_json(["size-docs", dp, gp])
+            ctx.cov["documents_by_size"] = len(ds)
         elif cfg == "family":
             # the exhaustive name / position / allotment families of ShapeFam.tla (no verdict attached: analysed like the soups)
             fgp, _, _ = family_gen(ctx, "Syntax_static1.cfg", "c18fam", scope="analysis")
